@@ -70,13 +70,15 @@ type Model struct {
 	MTU     int
 	deny    map[string]bool
 	// Unsure is set when an observation made the model lose track (lost response etc.).
-	reqs map[[12]byte]*reqInfo
+	reqs map[[12]byte][]*reqInfo
 }
 
 type reqInfo struct {
 	c         *RawClient
 	method    uint16
 	responses int
+	// retransmits: how many extra copies of the request were sent (each may be answered)
+	retransmits int
 }
 
 // NewModel creates the model for a world.
@@ -84,7 +86,7 @@ func NewModel(w *World) *Model {
 	m := &Model{
 		W: w, Rec: w.Rec, Allocs: map[string]*MAlloc{}, ByRelay: map[string]*MAlloc{},
 		PermTO: w.Cfg.PermTimeout, ChanTO: w.Cfg.ChanTimeout, DefLife: w.Cfg.Lifetime, MTU: w.Cfg.InboundMTU,
-		deny: map[string]bool{}, reqs: map[[12]byte]*reqInfo{},
+		deny: map[string]bool{}, reqs: map[[12]byte][]*reqInfo{},
 	}
 	if m.PermTO == 0 {
 		m.PermTO = 5 * time.Minute
